@@ -7,6 +7,8 @@
 //!   `LAY` (rows of every zone file of every segment directory, read back through the real
 //!   `ZoneCursorLoader`). The model answers `ilv:<memtable flow>|<segment flow>`; the
 //!   implementation line carries `seq:<keys in response order>`.
+//! * `bigflush` (mode "relation"): memtables of 24..64 rows with 2-3 event types and 3-5 contexts,
+//!   flushed, every (type, context) replayed from disk before and after a compaction round.
 //! * `heap` (exact): the real `ZoneMerger::next_zone` on generated cursor sets; oracle: rows of
 //!   one context leave in input order (holds since fix 32904ff).
 //!
@@ -121,7 +123,20 @@ fn join(ks: &[u64]) -> String {
     ks.iter().map(|k| k.to_string()).collect::<Vec<_>>().join(",")
 }
 
-fn show_layout(d: &[SegDump]) -> String {
+/// With several event types the numeric label of a compaction output depends on hash-map order in
+/// the planner (which plan allocates first): directories above level 0 are then shown as
+/// `level * 10000 + rank inside the level`.
+fn shown_label(d: &[SegDump], label: u64, ntypes: u64) -> u64 {
+    if ntypes <= 1 || label < 10_000 {
+        return label;
+    }
+    let mut same: Vec<u64> = d.iter().map(|s| s.label).filter(|l| l / 10_000 == label / 10_000 && *l < label).collect();
+    same.sort();
+    same.dedup();
+    (label / 10_000) * 10_000 + same.len() as u64
+}
+
+fn show_layout(d: &[SegDump], ntypes: u64) -> String {
     if d.is_empty() {
         return "lay:-".into();
     }
@@ -129,10 +144,39 @@ fn show_layout(d: &[SegDump]) -> String {
         .iter()
         .map(|s| {
             let zs: Vec<String> = s.zones.iter().map(|z| join(&z.iter().map(|(_, k)| *k).collect::<Vec<_>>())).collect();
-            format!("{}.{}={}", s.label, s.ty, zs.join("/"))
+            format!("{}.{}={}", shown_label(d, s.label, ntypes), s.ty, zs.join("/"))
         })
         .collect();
     format!("lay:{}", parts.join(" "))
+}
+
+/// Input distribution: flushed memtables (level-0 directories, each counted once) by size and mix.
+/// `big_multitype_repeated`: more than 20 rows, at least two event types and some (type, context)
+/// with two or more rows — what an unstable sort of the drained rows would need to show.
+fn count_big_l0(st: &mut Stream, d: &[SegDump], counted: &mut BTreeSet<u64>) {
+    let labels: BTreeSet<u64> = d.iter().map(|s| s.label).filter(|l| *l < 10_000).collect();
+    for l in labels {
+        if !counted.insert(l) {
+            continue;
+        }
+        let parts: Vec<&SegDump> = d.iter().filter(|s| s.label == l).collect();
+        let rows: usize = parts.iter().map(|s| s.zones.iter().map(|z| z.len()).sum::<usize>()).sum();
+        let repeated = parts.iter().any(|s| {
+            let mut seen = BTreeSet::new();
+            s.zones.iter().flatten().any(|(c, _)| !seen.insert(*c))
+        });
+        let zones_max = parts.iter().map(|s| s.zones.len()).max().unwrap_or(0);
+        st.tally("flushed_memtables");
+        if rows > 20 {
+            st.tally("flushed_memtables_over_20_rows");
+        }
+        if rows > 20 && parts.len() >= 2 && repeated {
+            st.tally("flushed_memtables_big_multitype_repeated");
+            if zones_max >= 2 {
+                st.tally("flushed_memtables_big_multitype_repeated_several_zones");
+            }
+        }
+    }
 }
 
 /// Keys replayed from the WAL by a restart: every line of every `wal-*.log`.
@@ -384,6 +428,88 @@ fn gen_history(r: &mut Rng, ntypes: u64, len: usize, crashes: bool) -> Vec<Tok> 
     toks
 }
 
+/// Large memtables: capacity 24..64 rows (several zones per segment), 2-3 event types interleaved,
+/// 3-5 contexts with many events per (type, context); k or k+1 memtables are flushed (automatic
+/// rotation at capacity, or a manual FLUSH of more than 20 rows), every (type, context) is replayed
+/// from disk, a compaction round runs, everything is replayed again, then once more with rows in memory.
+fn gen_bigflush(r: &mut Rng) -> Case {
+    const SHAPES: [(usize, usize); 14] = [(4, 6), (4, 8), (6, 4), (6, 6), (8, 3), (8, 4), (8, 6), (12, 2), (12, 3), (16, 2), (16, 3), (16, 4), (3, 9), (5, 7)];
+    let (epz, ff) = *r.pick(&SHAPES);
+    let cfg = SysCfg { event_per_zone: epz, fill_factor: ff, segments_per_merge: 2 + r.below(2) as usize, ..Default::default() };
+    let cap = cfg.capacity() as u64;
+    let ntypes = 2 + r.below(2);
+    let nctx = 3 + r.below(3) as usize;
+    let mut pool = CTX_POOL.to_vec();
+    r.shuffle(&mut pool);
+    let ctxs: Vec<u64> = pool[..nctx].to_vec();
+    let mut toks = vec![];
+    let mut k = 0u64;
+    let mut clock: u64 = 1_700_001_000;
+    let nseg = cfg.segments_per_merge as u64 + r.below(2);
+    let mut store = |toks: &mut Vec<Tok>, r: &mut Rng, ty: u64, first: bool| {
+        let before = clock;
+        match r.below(3) {
+            0 => {}
+            1 => clock += 1 + r.below(5),
+            _ => clock -= 1 + r.below(100),
+        }
+        if clock != before || first {
+            toks.push(Tok::T(clock));
+        }
+        k += 1;
+        toks.push(Tok::Op(Op::S { k, ctx: *r.pick(&ctxs), ty }));
+    };
+    let all_pt = |toks: &mut Vec<Tok>| {
+        for c in &ctxs {
+            for t in 0..ntypes {
+                toks.push(Tok::Pt(*c, t));
+            }
+        }
+    };
+    for seg in 0..nseg {
+        // every memtable holds every type (so each compaction round is one batch over all types)
+        let manual = r.chance(1, 2);
+        let m = if manual { 21 + r.below(cap - 21) } else { cap };
+        for i in 0..m {
+            let ty = if i < ntypes { i } else { r.below(ntypes) };
+            store(&mut toks, r, ty, seg == 0 && i == 0);
+        }
+        toks.push(Tok::Op(if manual { Op::F } else { Op::Run }));
+        if seg == 0 {
+            toks.push(Tok::Lay);
+            all_pt(&mut toks);
+        }
+    }
+    toks.push(Tok::Op(Op::Run));
+    toks.push(Tok::Lay);
+    all_pt(&mut toks);
+    toks.push(Tok::Op(Op::C));
+    toks.push(Tok::Lay);
+    all_pt(&mut toks);
+    for i in 0..(ntypes + r.below(6)) {
+        store(&mut toks, r, i % ntypes, false);
+    }
+    for t in 0..ntypes {
+        toks.push(Tok::Pt(ctxs[0], t));
+    }
+    toks.push(Tok::Op(Op::Ls));
+    Case { cfg, ntypes, toks }
+}
+
+fn bigflush_stream(a: &Args) {
+    let mut st = Stream::create(&a.out, &a.stream);
+    for i in 0..a.cases {
+        if a.only.is_some_and(|o| o != i) {
+            continue;
+        }
+        let mut r = Rng::for_case(a.seed, &a.stream, i);
+        let case = gen_bigflush(&mut r);
+        let root = a.out.join(format!("{}-{i}", a.stream));
+        run_history(&mut st, i, &case, &root);
+    }
+    st.finish();
+}
+
 fn witnesses() -> Vec<Case> {
     let h = |epz: usize, ff: usize, k: usize, nt: u64, s: &str| Case {
         cfg: SysCfg { event_per_zone: epz, fill_factor: ff, segments_per_merge: k, ..Default::default() },
@@ -427,6 +553,7 @@ fn run_history(st: &mut Stream, idx: u64, case: &Case, root: &Path) {
     let mut wmem: BTreeSet<u64> = BTreeSet::new();
     let mut dump_cache: Option<Vec<SegDump>> = None;
     let mut clock: Option<u64> = None;
+    let mut counted_l0: BTreeSet<u64> = BTreeSet::new();
     let mut ts_of: BTreeMap<u64, u64> = BTreeMap::new();
     let mut rounds = 0u64;
     let mut reads = 0u64;
@@ -492,7 +619,8 @@ fn run_history(st: &mut Stream, idx: u64, case: &Case, root: &Path) {
             }
             Tok::Lay => {
                 let d = dump_cache.get_or_insert_with(|| dump_layout(&ex.s.root.clone(), &ex.s.shard_data_dir(0), ntypes));
-                obs.push(show_layout(d));
+                count_big_l0(st, d, &mut counted_l0);
+                obs.push(show_layout(d, ntypes));
             }
             Tok::P(_) | Tok::Pt(_, _) => {
                 let (c, ty) = match t {
@@ -774,6 +902,7 @@ fn main() {
         "replay" => history_stream(&a, false),
         "replaycrash" => history_stream(&a, true),
         "heap" => heap_stream(&a),
+        "bigflush" => bigflush_stream(&a),
         "probe" => probe(&a),
         other => {
             eprintln!("unknown stream {other}");
@@ -825,7 +954,7 @@ fn probe(a: &Args) {
             Tok::Lay => {
                 let root = ex.s.root.clone();
                 let d = dump_layout(&root, &ex.s.shard_data_dir(0), nt);
-                println!("{}", show_layout(&d));
+                println!("{}", show_layout(&d, nt));
             }
         }
     }
